@@ -46,7 +46,11 @@ def _extract_params_from_symb(
         symb.name
         for symb in statements.before_odes.full_expression(Expr.symbol(symbol_name)).free_symbols
     }
-    theta_name = terms.intersection(pset.names).pop()
+    # NOTE: Take the first matching parameter in parameter order (not an arbitrary element of a
+    # set of strings, whose iteration order depends on PYTHONHASHSEED)
+    theta_name = next((name for name in pset.names if name in terms), None)
+    if theta_name is None:
+        raise KeyError(symbol_name)
     return pset[theta_name]
 
 
